@@ -9,7 +9,7 @@
 EXTENDS Integers, Sequences, TLC, Json
 CONSTANT Positions
 Pairs == {<<0, 1>>, <<0, 2>>, <<0, 3>>, <<1, 2>>, <<1, 3>>, <<2, 3>>}
-Attrs == {"plain", "inl3", "inl23", "inl123", "isr", "unused", "proto", "isr_inl3"}
+Attrs == {"plain", "inl3", "inl23", "inl123", "isr", "isr2", "unused", "proto", "isr_inl3"}
 VARIABLES site, attr
 Init == site \in [Pairs -> Positions \cup {"none"}] /\ attr \in Attrs
 Next == UNCHANGED <<site, attr>>
